@@ -97,6 +97,13 @@ func (s *genSt) name() enc.Name {
 		} else {
 			n = nm("localhos")
 		}
+	} else if r.Chance(1, 12) {
+		// the other well-known scoped prefix: to the forwarding pipeline and to the thread dispatch
+		// /localhop names are ordinary names
+		n = nm("localhop")
+		if r.Chance(1, 3) {
+			n = append(n, comp("nfd"))
+		}
 	}
 	d := r.Range(0, 3)
 	if len(n) == 0 && d == 0 && r.Chance(3, 4) {
@@ -461,7 +468,8 @@ func (s *genSt) churn() {
 		if r.Chance(1, 2) {
 			s.g.Op("rmface %d", s.face())
 		} else {
-			s.g.Op("region %s", common.NameText(common.Pick(r, []enc.Name{nm("r"), nm("h", "y")})))
+			// regions may nest, in either order of configuration (a broader region after a narrower one)
+			s.g.Op("region %s", common.NameText(common.Pick(r, []enc.Name{nm("r"), nm("h", "y"), nm("h"), nm("r", "x")})))
 		}
 	}
 	s.g.Stat("op-churn")
@@ -558,6 +566,16 @@ func Gen(g *common.Gen, p Profile) {
 		}
 		if r.Chance(1, 4) {
 			g.Op("region /8:72")
+			if r.Chance(1, 2) {
+				// a narrower region first, then the broader one that contains it (or the other way round)
+				rs := []string{common.NameText(nm("h", "y")), common.NameText(nm("h"))}
+				if r.Chance(1, 3) {
+					rs[0], rs[1] = rs[1], rs[0]
+				}
+				g.Op("region %s", rs[0])
+				g.Op("region %s", rs[1])
+				g.Stat("regions-nested")
+			}
 		}
 		if r.Intn(100) < p.DnlShape {
 			s.dnlRereport(dnlMs)
